@@ -171,6 +171,10 @@ def stress_stage(pid, tier, seed):
                          '--stop-on', pid])
             jobs.append(['--kind', k, '--threads', '6', '--millis', str(millis), '--seed', sd('evict'), '--keys', '40', '--stop-on', pid])
         jobs.append(['--kind', k, '--threads', '12', '--millis', str(millis), '--seed', sd('waiters'), '--keys', '1', '--stop-on', pid])
+        if k != 'pool':
+            # many held keys: streams must deliver the unlocked entries without waiting for 100 held ones (seeded change W9_A)
+            jobs.append(['--kind', k, '--threads', '3', '--millis', str(millis), '--seed', sd('held'), '--keys', '1', '--hold', '100',
+                         '--free', '8'])
     fails, runs = [], []
     with cf.ThreadPoolExecutor(max_workers=8) as ex:
         for args, (rep, out) in zip(jobs, ex.map(lambda a: run_stress_cmd(a, 40 + millis // 1000 * 3), jobs)):
